@@ -3045,6 +3045,210 @@ theorem rowFor_in_range (i : Nat) (label : List Char) (s s' : RS) (r : Nat) (h :
     r < s'.rows.length ∧ s'.rest = s.rest :=
   ⟨((rowFor_post i label s).2 (r, s') h).2, ((rowFor_post i label s).2 (r, s') h).1⟩
 
+end DendroModel.C20
+
+namespace DendroModel.C20.Aux
+open DendroModel DendroModel.C20
+
+/-! ### which refusal: a Hoare logic with an error side (`EPost`) and the loop rule for error kinds -/
+/-- **loop rule for error kinds**: if the body keeps an invariant and, under it, fails only with errors satisfying `P`
+(as do the two markers), then the loop fails only with such errors -/
+theorem iter_err (b : RS → R (Bool × RS)) (I : RS → Prop) (P : Stop → Prop)
+    (hfuel : ∀ s n, I s → I { s with fuel := n }) (hPf : P .fuel) (hPi : ∀ w, P (.internal w))
+    (hb : ∀ s, I s → (∀ p, b s = .ok p → I p.2) ∧ (∀ e, b s = .error e → P e)) :
+    ∀ s, I s → ∀ e, iter b s = .error e → P e := by
+  have key : ∀ (n : Nat) (s : RS), s.rest.length ≤ n → I s → ∀ e, iter b s = .error e → P e := by
+    intro n
+    induction n with
+    | zero =>
+      intro s hl hi e he
+      rw [iter] at he
+      split at he
+      · cases he; exact hPf
+      have hB := hb _ (hfuel s (s.fuel - 1) hi)
+      split at he
+      · rename_i e' he'
+        cases he
+        exact hB.2 _ he'
+      · cases he
+      · rename_i s1 h1
+        split at he
+        · omega
+        · cases he; exact hPi _
+    | succ n ih =>
+      intro s hl hi e he
+      rw [iter] at he
+      split at he
+      · cases he; exact hPf
+      have hB := hb _ (hfuel s (s.fuel - 1) hi)
+      split at he
+      · rename_i e' he'
+        cases he
+        exact hB.2 _ he'
+      · cases he
+      · rename_i s1 h1
+        split at he
+        · rename_i hlt
+          exact ih s1 (by omega) (hB.1 _ h1) e he
+        · cases he; exact hPi _
+  exact fun s hi e he => key s.rest.length s (Nat.le_refl _) hi e he
+
+/-- Hoare triple with an error side: values satisfy `Q`, errors satisfy `P` -/
+def EPost {α : Type} (r : R α) (Q : α → Prop) (P : Stop → Prop) : Prop :=
+  (∀ a, r = .ok a → Q a) ∧ ∀ e, r = .error e → P e
+
+theorem EPost.pure {α : Type} {a : α} {Q : α → Prop} {P : Stop → Prop} (h : Q a) : EPost (Pure.pure a : R α) Q P :=
+  ⟨fun b hb => (by cases hb; exact h), fun e he => (by cases he)⟩
+theorem EPost.perr {α : Type} {Q : α → Prop} {P : Stop → Prop} (e : PErr) (h : P (.parse e)) : EPost (perr e : R α) Q P :=
+  ⟨fun b hb => (by unfold C20.perr at hb; cases hb), fun e' he => (by unfold C20.perr at he; cases he; exact h)⟩
+theorem EPost.bind {α β : Type} {x : R α} {g : α → R β} {Q1 : α → Prop} {Q2 : β → Prop} {P : Stop → Prop}
+    (hx : EPost x Q1 P) (hg : ∀ a, Q1 a → EPost (g a) Q2 P) : EPost (x >>= g) Q2 P := by
+  cases hxx : x with
+  | error e =>
+    have e1 : (Except.error e >>= g : R β) = Except.error e := rfl
+    rw [e1]
+    exact ⟨fun b hb => (by cases hb), fun e' he => (by cases he; exact hx.2 _ hxx)⟩
+  | ok a =>
+    have e2 : (Except.ok a >>= g : R β) = g a := rfl
+    rw [e2]
+    exact hg a (hx.1 a hxx)
+theorem EPost.ite {α : Type} {c : Prop} [Decidable c] {a b : R α} {Q : α → Prop} {P : Stop → Prop}
+    (ha : EPost a Q P) (hb : EPost b Q P) : EPost (if c then a else b) Q P := by
+  split <;> assumption
+
+/-- what the token reads keep, and how they fail -/
+def Keeps (s s' : RS) : Prop := s'.ntax = s.ntax ∧ s'.nsMutable = s.nsMutable ∧ s'.tns = s.tns
+
+theorem requireTok_e (s : RS) (P : Stop → Prop) (h1 : P (.parse .eos)) (h2 : P (.parse .unterminated)) :
+    EPost (requireTok s) (fun p => Keeps s p.2) P := by
+  unfold requireTok
+  split
+  · exact EPost.perr _ h1
+  · exact EPost.perr _ h2
+  · exact ⟨fun p hp => (by cases hp; exact ⟨rfl, rfl, rfl⟩), fun e he => (by cases he)⟩
+
+theorem nextTok_e (s : RS) (P : Stop → Prop) (h2 : P (.parse .unterminated)) :
+    EPost (nextTok s) (fun p => Keeps s p.2) P := by
+  unfold nextTok
+  split
+  · exact ⟨fun p hp => (by cases hp; exact ⟨rfl, rfl, rfl⟩), fun e he => (by cases he)⟩
+  · exact EPost.perr _ h2
+  · exact ⟨fun p hp => (by cases hp; exact ⟨rfl, rfl, rfl⟩), fun e he => (by cases he)⟩
+
+theorem iter_e (b : RS → R (Bool × RS)) (I : RS → Prop) (P : Stop → Prop)
+    (hfuel : ∀ s n, I s → I { s with fuel := n }) (hPf : P .fuel) (hPi : ∀ w, P (.internal w))
+    (hb : ∀ s, I s → EPost (b s) (fun p => I p.2) P) (s : RS) (hi : I s) : ∀ e, iter b s = .error e → P e :=
+  iter_err b I P hfuel hPf hPi (fun s hs => ⟨(hb s hs).1, (hb s hs).2⟩) s hi
+
+theorem parseTranslate_kind (s : RS) (h : s.ntax = none) (e : Stop) (he : parseTranslate s = .error e) :
+    e ≠ .parse .undefinedTaxon := by
+  unfold parseTranslate at he
+  refine iter_e _ (fun x => x.nsMutable = true) (fun e => e ≠ .parse .undefinedTaxon) (fun _ _ h => h) (by simp) (by simp) ?_ _ ?_ e he
+  · intro s hs
+    refine EPost.bind (requireTok_e s _ (by simp) (by simp)) ?_
+    rintro ⟨tt, s1⟩ k1
+    refine EPost.ite (EPost.perr _ (by simp)) ?_
+    refine EPost.bind (requireTok_e s1 _ (by simp) (by simp)) ?_
+    rintro ⟨tl, s2⟩ k2
+    have hm : s2.nsMutable = true := by rw [k2.2.1, k1.2.1]; exact hs
+    dsimp only
+    refine EPost.bind (Q1 := fun _ => True) ?_ ?_
+    · split
+      · exact EPost.pure trivial
+      · rw [if_pos hm]; exact EPost.pure trivial
+    · rintro ⟨j, m⟩ _
+      refine EPost.bind (nextTok_e _ _ (by simp)) ?_
+      rintro ⟨t, s3⟩ k3
+      have h3 : s3.nsMutable = true := by rw [k3.2.1]; exact hm
+      refine EPost.ite (EPost.pure h3) (EPost.ite (EPost.perr _ (by simp)) (EPost.pure h3))
+  · have hn : (ensureMapper s).ntax = none := by unfold ensureMapper; split <;> exact h
+    simp [hn]
+
+theorem parseTaxlabels_kind (i : Nat) (s : RS) (e : Stop) (he : parseTaxlabels i s = .error e) :
+    e = .parse .tooManyTaxa → s.ntax.isSome = true := by
+  unfold parseTaxlabels at he
+  have hE : EPost (requireTok s >>= fun p => iter (fun s => do
+      let label := s.stok
+      if label == semi.text && !s.quoted then pure (false, s)
+      else
+        let labels := labelsOf s.tns i
+        let s ← (if hasLabel labels label then pure s
+                 else if (match s.ntax with | some n => decide (labels.length ≥ n) | none => false) then perr .tooManyTaxa
+                 else pure { s with tns := setLabels s.tns i (labels ++ [label]) } : R RS)
+        let (t, s) ← requireTok s
+        pure (true, { s with stok := t })) { p.2 with stok := p.1 }) (fun _ => True)
+      (fun e => e = .parse .tooManyTaxa → s.ntax.isSome = true) := by
+    refine EPost.bind (requireTok_e s _ (by simp) (by simp)) ?_
+    rintro ⟨t, s1⟩ k1
+    refine ⟨fun _ _ => trivial, ?_⟩
+    refine iter_e _ (fun x => x.ntax = s.ntax) (fun e => e = .parse .tooManyTaxa → s.ntax.isSome = true) (fun _ _ h => h) (by simp) (by simp) ?_ _ k1.1
+    intro x hx
+    dsimp only
+    refine EPost.ite (P := fun e => e = .parse .tooManyTaxa → s.ntax.isSome = true) (EPost.pure hx) ?_
+    refine EPost.bind (Q1 := fun y => y.ntax = s.ntax) ?_ ?_
+    · refine EPost.ite (EPost.pure hx) ?_
+      cases hn : x.ntax with
+      | none =>
+        simp only [Bool.false_eq_true, if_false]
+        exact EPost.pure (by dsimp only; rw [← hx, hn])
+      | some n =>
+        have hsome : s.ntax.isSome = true := by rw [← hx, hn]; rfl
+        simp only
+        refine EPost.ite (EPost.perr _ (fun _ => hsome)) (EPost.pure (by dsimp only; rw [← hx, hn]))
+    · intro y hy
+      refine EPost.bind (requireTok_e y _ (by simp) (by simp)) ?_
+      rintro ⟨t2, y2⟩ k2
+      exact EPost.pure (by dsimp only; rw [k2.1]; exact hy)
+  exact hE.2 e he
+
+end DendroModel.C20.Aux
+
+namespace DendroModel.C20
+open DendroModel DendroModel.C20.Aux
+
+/-- **The loop rule for refusal kinds** (about the driver's `iter`): if the body keeps an invariant and, under it, fails
+only with errors satisfying `P` (as the two markers do), the loop fails only with such errors. -/
+theorem reader_loop_error_rule (b : RS → R (Bool × RS)) (I : RS → Prop) (P : Stop → Prop)
+    (hfuel : ∀ s n, I s → I { s with fuel := n }) (hPf : P .fuel) (hPi : ∀ w, P (.internal w))
+    (hb : ∀ s, I s → (∀ p, b s = .ok p → I p.2) ∧ (∀ e, b s = .error e → P e))
+    (s : RS) (hi : I s) (e : Stop) (he : iter b s = .error e) : P e :=
+  iter_err b I P hfuel hPf hPi hb s hi e he
+
+/-- **A tree file without TAXA block / NTAX is never refused with `UndefinedTaxonError`.**  When no NTAX has been declared
+(`_file_specified_ntax is None`: MrBayes / BEAST style sources), `_parse_translate_statement` unlocks the namespace, and
+whatever the TRANSLATE statement contains — complete, partial, cut — it adds the labels it does not know; it can fail
+(end of stream, a missing comma, …) but not with the undefined-taxon refusal, which the driver prints as its own kind
+and the correspondence compares with the exception class of the code. -/
+theorem translate_without_ntax_never_undefined_taxon (s : RS) (h : s.ntax = none) :
+    parseTranslate s ≠ .error (.parse .undefinedTaxon) :=
+  fun he => parseTranslate_kind s h _ he rfl
+
+/-- **`TooManyTaxaError` from TAXLABELS presupposes a declared NTAX**: the refusal kind is only produced when the
+document (or an earlier block) has given the number it is measured against. -/
+theorem too_many_taxa_needs_ntax (i : Nat) (s : RS) (h : parseTaxlabels i s = .error (.parse .tooManyTaxa)) :
+    s.ntax.isSome = true :=
+  parseTaxlabels_kind i s _ h rfl
+
+/-- the hypotheses are satisfiable: a fresh reader state has no NTAX; one with `NTAX=1` has -/
+example : ({ rest := "1 A, 2 B;".toList, fuel := 9 } : RS).ntax = none ∧ ({ rest := [], ntax := some 1 } : RS).ntax.isSome = true := ⟨rfl, rfl⟩
+
+/-- **PHYLIP never accepts a ragged matrix.**  Whatever the text and the mode — in particular an interleaved document
+whose last block is incomplete (cut after the first row of the block, a line of the block lost) — a matrix that
+`readPhylip` returns has all its rows of one length, the declared NCHAR, and as many rows as the declared NTAX: the
+row-filling loops (`phySequential`, `phyInterleaved`) cannot make up for a short row, and the final declared-versus-found
+check of the repaired `_read` sees every row, not only the longest one. -/
+theorem phylip_never_accepts_ragged (sym : Char → Bool) (strict interleaved : Bool) (text : List Char) (rows : Rows)
+    (h : readPhylip sym strict interleaved text = .ok rows) :
+    (∀ r1 ∈ rows, ∀ r2 ∈ rows, r1.2 = r2.2) ∧
+    ∃ ntax nchar, (splitLines text).head?.bind parseHeader = some (ntax, nchar) ∧ rows.length = ntax ∧ ∀ r ∈ rows, r.2 = nchar := by
+  obtain ⟨ntax, nchar, hh, _, _, hl, hall⟩ := ok_dims sym strict interleaved text rows h
+  exact ⟨fun r1 h1 r2 h2 => by rw [hall r1 h1, hall r2 h2], ntax, nchar, hh, hl, hall⟩
+
+/-- the class of the seeded change: `2 4`, two blocks, the last block cut after its first row — rows 4/2 — is rejected … -/
+example : readPhylip (fun c => c == 'A') false true "2 4\nx AA\ny AA\n\nAA\n".toList = .err .data := by decide
+/-- … and the complete document is accepted with rows 4/4 -/
+example : readPhylip (fun c => c == 'A') false true "2 4\nx AA\ny AA\n\nAA\nAA\n".toList = .ok [(['x'], 4), (['y'], 4)] := by decide
+
 /-! ### Tie A: the regenerated constants of the readers (Gen/C20Consts.lean) against the model's own -/
 
 /-- membership of a token in a list of keywords -/
